@@ -16,13 +16,21 @@ package main
 import (
 	"bytes"
 	"context"
+	"crypto/ecdsa"
+	"crypto/elliptic"
+	crand "crypto/rand"
 	"crypto/sha256"
+	"crypto/tls"
+	"crypto/x509"
+	"crypto/x509/pkix"
 	"encoding/binary"
 	"encoding/json"
 	"fmt"
 	"io"
+	"math/big"
 	"math/rand"
 	"net"
+	"net/http"
 	"net/url"
 	"os"
 	"os/exec"
@@ -38,10 +46,10 @@ import (
 	"github.com/fabiolb/fabio/route"
 
 	gkm "github.com/go-kit/kit/metrics"
-	grpc_proxy "github.com/mwitkow/grpc-proxy/proxy"
 	"google.golang.org/grpc"
 	"google.golang.org/grpc/codes"
 	"google.golang.org/grpc/connectivity"
+	"google.golang.org/grpc/credentials"
 	"google.golang.org/grpc/credentials/insecure"
 	"google.golang.org/grpc/metadata"
 	"google.golang.org/grpc/stats"
@@ -101,6 +109,7 @@ type script struct {
 
 type bview struct {
 	backend int
+	url     string
 	method  string
 	md      metadata.MD
 	msgs    [][]byte
@@ -138,7 +147,7 @@ func (b *backend) handle(_ any, ss grpc.ServerStream) error {
 	sc := curScript.Load()
 	method, _ := grpc.MethodFromServerStream(ss)
 	md, _ := metadata.FromIncomingContext(ss.Context())
-	rec := &bview{backend: b.idx, method: method, md: md.Copy(), done: make(chan struct{})}
+	rec := &bview{backend: b.idx, url: b.url, method: method, md: md.Copy(), done: make(chan struct{})}
 	seenMu.Lock()
 	seen = append(seen, rec)
 	seenMu.Unlock()
@@ -191,15 +200,36 @@ func (b *backend) handle(_ any, ss grpc.ServerStream) error {
 	return st()
 }
 
-func startBackend(idx int) *backend {
+func selfSigned() tls.Certificate {
+	key, err := ecdsa.GenerateKey(elliptic.P256(), crand.Reader)
+	if err != nil {
+		panic(err)
+	}
+	tmpl := &x509.Certificate{SerialNumber: big.NewInt(16), Subject: pkix.Name{CommonName: "verif-c16-backend"},
+		NotBefore: time.Now().Add(-time.Hour), NotAfter: time.Now().Add(24 * time.Hour),
+		KeyUsage: x509.KeyUsageDigitalSignature, ExtKeyUsage: []x509.ExtKeyUsage{x509.ExtKeyUsageServerAuth},
+		IPAddresses: []net.IP{net.ParseIP("127.0.0.1")}}
+	der, err := x509.CreateCertificate(crand.Reader, tmpl, tmpl, &key.PublicKey, key)
+	if err != nil {
+		panic(err)
+	}
+	return tls.Certificate{Certificate: [][]byte{der}, PrivateKey: key}
+}
+
+func startBackend(idx int, secure bool) *backend {
 	ln, err := net.Listen("tcp", "127.0.0.1:0")
 	if err != nil {
 		panic(err)
 	}
 	b := &backend{idx: idx, addr: ln.Addr().String()}
 	b.url = "grpc://" + b.addr
-	b.srv = grpc.NewServer(grpc.ForceServerCodec(rawCodec{"proto"}), grpc.UnknownServiceHandler(b.handle),
-		grpc.StatsHandler(b), grpc.MaxRecvMsgSize(16<<20), grpc.MaxSendMsgSize(16<<20))
+	opts := []grpc.ServerOption{grpc.ForceServerCodec(rawCodec{"proto"}), grpc.UnknownServiceHandler(b.handle),
+		grpc.StatsHandler(b), grpc.MaxRecvMsgSize(16 << 20), grpc.MaxSendMsgSize(16 << 20)}
+	if secure {
+		b.url = "grpcs://" + b.addr
+		opts = append(opts, grpc.Creds(credentials.NewTLS(&tls.Config{Certificates: []tls.Certificate{selfSigned()}})))
+	}
+	b.srv = grpc.NewServer(opts...)
 	go b.srv.Serve(ln)
 	return b
 }
@@ -383,7 +413,8 @@ func genTable(r *rand.Rand, urls []string, maxRoutes int, catchAll bool) (route.
 	return t, txt
 }
 
-var mdKeys = []string{"x-a", "x-request-id", "k", "a.b_c-d", "authorization", "trace", "x-data-bin", "z-bin", "x-0", "accept-language"}
+// the last two are names grpc-go reserves: its client transport leaves them out (only callers use them)
+var mdKeys = []string{"x-a", "x-request-id", "k", "a.b_c-d", "authorization", "trace", "x-data-bin", "z-bin", "x-0", "accept-language", "user-agent", "te"}
 
 func asciiVal(r *rand.Rand) string {
 	switch r.Intn(8) {
@@ -606,7 +637,7 @@ func main() {
 	var backends []*backend
 	var burls []string
 	for i := 0; i < nb; i++ {
-		b := startBackend(i)
+		b := startBackend(i, false)
 		backends = append(backends, b)
 		burls = append(burls, b.url)
 	}
@@ -616,6 +647,10 @@ func main() {
 		}
 	}()
 
+	tlsBackend := startBackend(nb, true)
+	defer tlsBackend.srv.Stop()
+	// compiled and started while the hook-driven parts run
+	drv := startDriver(false, 150)
 	phase := time.Now()
 	lap := func(name string) {
 		run.Notes["seconds_"+name] = time.Since(phase).Seconds()
@@ -628,7 +663,7 @@ func main() {
 	raceProbe(run, backends)
 	waitQuiet(backends, 3*time.Second)
 	lap("race")
-	session(run, r, backends)
+	session(run, r, backends, tlsBackend, drv)
 	lap("session")
 	limitCases(run, r)
 	lap("limits")
@@ -806,10 +841,26 @@ func poolCases(run *vh.Run, r *rand.Rand, backends []*backend) {
 		nops := 3 + r.Intn(14)
 		var ops, obs, sample []string
 		bad := false
+		// every 3rd history also replays interleavings of concurrent first calls: dials by the
+		// harness, stores through the real setIfAbsent (other live connection pooled / pooled one
+		// shut down / the same connection again)
+		raceHistory := i%3 == 1
+		type pdial struct {
+			u string
+			c *grpc.ClientConn
+		}
+		var pendingDials []pdial
+		if raceHistory {
+			class = "pool-interleaved-callers"
+			nops += 6
+		}
 		for k := 0; k < nops && !bad; k++ {
 			var got string = vh.None
 			before := pool.Snapshot()
 			x := r.Intn(10)
+			if raceHistory {
+				x = r.Intn(15)
+			}
 			if downHistory && k < 3 {
 				x = 0
 			}
@@ -834,11 +885,11 @@ func poolCases(run *vh.Run, r *rand.Rand, backends []*backend) {
 					continue
 				}
 				got = vh.Some(vh.N(idOf(c)))
-				ops = append(ops, vh.App("PGet", vh.HxS(u)))
+				ops = append(ops, vh.App("P1", vh.App("PGet", vh.HxS(u))))
 				sample = append(sample, "get "+u)
 			case x < 7:
 				s := setTable(subset())
-				ops = append(ops, vh.App("PSetTable", strsCoq(s)))
+				ops = append(ops, vh.App("P1", vh.App("PSetTable", strsCoq(s))))
 				sample = append(sample, "table "+strings.Join(s, ","))
 			case x < 9:
 				if !tick(pool) {
@@ -846,15 +897,38 @@ func poolCases(run *vh.Run, r *rand.Rand, backends []*backend) {
 					bad = true
 					continue
 				}
-				ops = append(ops, "PTick")
+				ops = append(ops, "(P1 PTick)")
 				sample = append(sample, "tick")
-			default:
+			case x < 10:
 				u := us[r.Intn(len(us))]
 				if c := before[u]; c != nil {
 					c.Close()
 				}
-				ops = append(ops, vh.App("PShutdown", vh.HxS(u)))
+				ops = append(ops, vh.App("P1", vh.App("PShutdown", vh.HxS(u))))
 				sample = append(sample, "shutdown "+u)
+			case x < 12:
+				// a caller between its lookup (miss) and its store: it has dialled, nobody knows yet
+				u := us[r.Intn(len(us))]
+				pu, _ := url.Parse(u)
+				c, err := grpc.NewClient("passthrough:///"+pu.Host, grpc.WithTransportCredentials(insecure.NewCredentials()))
+				if err != nil {
+					panic(err)
+				}
+				pendingDials = append(pendingDials, pdial{u, c})
+				got = vh.Some(vh.N(idOf(c)))
+				ops = append(ops, vh.App("PDial", vh.HxS(u)))
+				sample = append(sample, "dial "+u)
+			default:
+				// ... and arrives at the real setIfAbsent, whatever happened in between
+				if len(pendingDials) == 0 {
+					continue
+				}
+				pd := pendingDials[r.Intn(len(pendingDials))]
+				pu, _ := url.Parse(pd.u)
+				rc := pool.SetIfAbsent(&route.Target{URL: pu}, pd.c)
+				got = vh.Some(vh.N(idOf(rc)))
+				ops = append(ops, vh.App("PSetIfAbsent", vh.HxS(pd.u), vh.N(idOf(pd.c))))
+				sample = append(sample, fmt.Sprintf("set-if-absent %s conn %d", pd.u, idOf(pd.c)))
 			}
 			after := pool.Snapshot()
 			// connections the step removed from the pool: the close is asynchronous, give it time
@@ -1106,67 +1180,164 @@ func cviewCoq(cv cview) string {
 	return vh.App("mkcview", mdCoq(cv.hdr, transportKeysCaller), msgsCoq(cv.msgs), mdCoq(cv.trl, transportKeysCaller), vh.N(int(cv.code)), vh.HxS(cv.msg))
 }
 
-func session(run *vh.Run, r *rand.Rand, backends []*backend) {
+// ---- the proxy under test: main.go's own wiring, in a process of the repository under test ----
+
+type proxyInst struct {
+	Addr string `json:"addr"`
+	T0   int64  `json:"t0_unix_nano"`
+}
+type driver struct {
+	Plain proxyInst `json:"plain"`
+	TLS   proxyInst `json:"tls"`
+	Ctrl  string    `json:"ctrl"`
+	cmd   *exec.Cmd
+	logb  *bytes.Buffer
+	dir   string
+	err   error
+	ready chan struct{}
+}
+
+// startDriver launches `go test -tags verif -run TestVerifC16Serve` in $VERIF_REPO: newGrpcProxy +
+// proxy.ListenAndServeGRPC as main.go calls them (one plaintext listener, one TLS listener).
+func startDriver(noglob bool, shutdownMs int) *driver {
+	d := &driver{ready: make(chan struct{}), logb: &bytes.Buffer{}}
+	repo := os.Getenv("VERIF_REPO")
+	if repo == "" {
+		repo = "/repo"
+	}
+	dir, err := os.MkdirTemp("", "verif-c16-serve-")
+	if err != nil {
+		panic(err)
+	}
+	d.dir = dir
+	statusF := filepath.Join(dir, "status.json")
+	d.cmd = exec.Command("go", "test", "-tags", "verif", "-count=1", "-timeout", "20m", "-run", "TestVerifC16Serve$", ".")
+	d.cmd.Dir = repo
+	d.cmd.Env = append(os.Environ(), "VERIF_C16_SERVE="+statusF, fmt.Sprintf(`VERIF_C16_SERVE_CFG={"noglob":%v,"shutdown_ms":%d}`, noglob, shutdownMs))
+	d.cmd.Stdout, d.cmd.Stderr = d.logb, d.logb
+	if err := d.cmd.Start(); err != nil {
+		d.err = err
+		close(d.ready)
+		return d
+	}
+	exited := make(chan error, 1)
+	go func() { exited <- d.cmd.Wait() }()
+	go func() {
+		defer close(d.ready)
+		deadline := time.Now().Add(8 * time.Minute)
+		for time.Now().Before(deadline) {
+			if b, err := os.ReadFile(statusF); err == nil {
+				if err := json.Unmarshal(b, d); err == nil && d.Ctrl != "" {
+					return
+				}
+			}
+			select {
+			case err := <-exited:
+				d.err = fmt.Errorf("driver exited before it was ready: %v", err)
+				return
+			case <-time.After(50 * time.Millisecond):
+			}
+		}
+		d.err = fmt.Errorf("driver not ready after 8 minutes")
+	}()
+	return d
+}
+
+func (d *driver) post(path, body string) error {
+	resp, err := http.Post("http://"+d.Ctrl+path, "text/plain", strings.NewReader(body))
+	if err != nil {
+		return err
+	}
+	defer resp.Body.Close()
+	b, _ := io.ReadAll(resp.Body)
+	if resp.StatusCode != 200 {
+		return fmt.Errorf("%s: %s", resp.Status, b)
+	}
+	return nil
+}
+
+func (d *driver) stop() {
+	if d.Ctrl != "" {
+		d.post("/quit", "")
+	}
+	if d.cmd != nil && d.cmd.Process != nil {
+		time.AfterFunc(3*time.Second, func() { d.cmd.Process.Kill() })
+	}
+	os.RemoveAll(d.dir)
+}
+
+const deadBackendURL = "grpc://127.0.0.1:1" // nobody listens there
+
+func session(run *vh.Run, r *rand.Rand, backends []*backend, tlsBackend *backend, d *driver) {
 	noglob := false
-	cfg := newCfg(150*time.Millisecond, noglob)
+	<-d.ready
+	if d.err != nil {
+		tail := d.logb.String()
+		if len(tail) > 1500 {
+			tail = tail[len(tail)-1500:]
+		}
+		run.Violation(run.NextID(), fmt.Sprintf("newGrpcProxy serve driver (go test -tags verif -run TestVerifC16Serve) failed: %v", d.err), tail)
+		return
+	}
+	defer d.stop()
+	t0 := time.Unix(0, d.Plain.T0)
 	var burls []string
 	for _, b := range backends {
 		burls = append(burls, b.url)
 	}
-	byAddr := map[string]*backend{}
-	for _, b := range backends {
-		byAddr[b.addr] = b
-	}
-	t, ttxt := genTable(r, burls, 6, true)
-	route.SetTable(t)
-
-	// --- main.go:newGrpcProxy, replicated ---
-	var noRoute, connects int64
-	sh := &proxy.GrpcStatsHandler{Connect: counter{&connects}, Request: histogram{}, NoRoute: counter{&noRoute}, Status: histogram{}}
-	pi := proxy.GrpcProxyInterceptor{Config: cfg, StatsHandler: sh, GlobCache: route.NewGlobCache(cfg.GlobCacheSize)}
-	t0 := time.Now()
-	handler := grpc_proxy.TransparentHandler(proxy.GetGRPCDirector(nil, cfg))
-	opts := []grpc.ServerOption{
-		grpc.CustomCodec(grpc_proxy.Codec()),
-		grpc.UnknownServiceHandler(handler),
-		grpc.StreamInterceptor(pi.Stream),
-		grpc.StatsHandler(sh),
-		grpc.MaxRecvMsgSize(cfg.Proxy.GRPCMaxRxMsgSize),
-		grpc.MaxSendMsgSize(cfg.Proxy.GRPCMaxTxMsgSize),
-	}
-	// --- end ---
-	var paddr string
-	for try := 0; ; try++ {
-		ln, err := net.Listen("tcp", "127.0.0.1:0")
+	// routes may also name a backend that is down and a TLS backend (at most one of the two per route)
+	turls := append(append([]string{}, burls...), deadBackendURL, tlsBackend.url)
+	unreachablePlain := map[string]bool{deadBackendURL: true, tlsBackend.url: true} // through the plaintext listener
+	downTerm := strsCoq([]string{deadBackendURL})
+	setTable := func(txt string) route.Table {
+		if err := d.post("/table", txt); err != nil {
+			panic("driver rejected the table: " + err.Error())
+		}
+		t, err := route.NewTable(bytes.NewBufferString(txt))
 		if err != nil {
 			panic(err)
 		}
-		paddr = ln.Addr().String()
-		ln.Close()
-		errc := make(chan error, 1)
-		go func() { errc <- proxy.ListenAndServeGRPC(config.Listen{Addr: paddr, Proto: "grpc"}, opts, nil) }()
-		select {
-		case err := <-errc:
-			if try > 5 {
-				panic(fmt.Sprintf("ListenAndServeGRPC: %v", err))
-			}
-			continue
-		case <-time.After(150 * time.Millisecond):
-		}
-		break
+		return t
 	}
-	defer proxy.Close()
-	dialCaller := func(name string) *grpc.ClientConn {
-		cc, err := grpc.NewClient("passthrough:///"+paddr, grpc.WithTransportCredentials(insecure.NewCredentials()),
+	genT := func() (route.Table, string) {
+		for {
+			_, txt := genTable(r, turls, 6, true)
+			t, _ := route.NewTable(bytes.NewBufferString(txt))
+			ok := true
+			for _, rs := range t {
+				for _, rt := range rs {
+					n := 0
+					for _, tg := range rt.Targets {
+						if unreachablePlain[tg.URL.String()] {
+							n++
+						}
+					}
+					if n > 1 {
+						ok = false // which of the two a failed call went to could not be told
+					}
+				}
+			}
+			if ok {
+				return setTable(txt), txt
+			}
+		}
+	}
+	dialCaller := func(addr, name string, secure bool) *grpc.ClientConn {
+		creds := insecure.NewCredentials()
+		if secure {
+			creds = credentials.NewTLS(&tls.Config{InsecureSkipVerify: true})
+		}
+		cc, err := grpc.NewClient("passthrough:///"+addr, grpc.WithTransportCredentials(creds),
 			grpc.WithDefaultCallOptions(grpc.ForceCodec(rawCodec{name}), grpc.MaxCallRecvMsgSize(16<<20)))
 		if err != nil {
 			panic(err)
 		}
 		return cc
 	}
-	callers := []*grpc.ClientConn{dialCaller("proto"), dialCaller("raw")}
+	callers := []*grpc.ClientConn{dialCaller(d.Plain.Addr, "proto", false), dialCaller(d.Plain.Addr, "raw", false)}
+	tlsCaller := dialCaller(d.TLS.Addr, "proto", true)
 	defer func() {
-		for _, c := range callers {
+		for _, c := range append(callers, tlsCaller) {
 			c.Close()
 		}
 	}()
@@ -1183,15 +1354,139 @@ func session(run *vh.Run, r *rand.Rand, backends []*backend) {
 		return vh.List(it)
 	}
 
+	// one call; returns the case pieces
+	type result struct {
+		chosen   string // "" = nobody
+		chosenOK bool
+		ciTerm   string
+		chosenT  string
+		bvT      string
+		cv       cview
+		sample   map[string]interface{}
+		class    string
+		upT      string
+		mdT      string
+	}
+	doOne := func(cc *grpc.ClientConn, tbl route.Table, txt string, unreachable map[string]bool, calls int, forceMethod string) (res result, ok bool) {
+		kind := r.Intn(6)
+		method := methodPool[r.Intn(len(methodPool))]
+		if r.Intn(16) == 0 {
+			// still "/service/method" for grpc-go; net/url decodes, splits or rejects them
+			method = []string{"/pkg.Svc/G%65t", "/pkg.Svc/Get%zz", "/pkg.Svc/Get?x=/other.Api/", "/%6fther.Api/X", "/pkg.Svc/Get#frag", "/pkg.Svc/%zz"}[r.Intn(6)]
+		}
+		if forceMethod != "" {
+			method = forceMethod
+		}
+		md := genMD(r, mdKeys, 4)
+		addDstHost(r, md)
+		sc := &script{hdr: genMD(r, mdKeys[:9], 3), trl: genMD(r, mdKeys[:9], 3), earlyHdr: r.Intn(2) == 0}
+		if r.Intn(3) > 0 {
+			sc.code = uint32(1 + r.Intn(16))
+			if r.Intn(8) == 0 {
+				sc.code = uint32(17 + r.Intn(80))
+			}
+			sc.msg = statusMsgs[r.Intn(len(statusMsgs))]
+		}
+		nreq, nresp := r.Intn(5), r.Intn(5)
+		allowBig := calls%7 == 0
+		switch kind {
+		case kUnary:
+			nreq, nresp = 1, 1
+			if sc.code != 0 {
+				nresp = 0
+			}
+		case kServerStream:
+			nreq = 1
+		case kClientStream:
+			nresp = 1
+			if sc.code != 0 {
+				nresp = 0
+			}
+		case kPingPong:
+			sc.mode = modePingPong
+		case kEarlyFail:
+			sc.mode = modeEarlyFail
+			nresp = 0
+			if sc.code == 0 {
+				sc.code = uint32(codes.FailedPrecondition)
+				sc.msg = "early"
+			}
+		}
+		reqs := genMsgs(r, nreq, allowBig)
+		sc.msgs = genMsgs(r, nresp, allowBig)
+		for _, m := range append(append([][]byte{}, reqs...), sc.msgs...) {
+			if !wellFormed(m) {
+				panic("generator produced a malformed protobuf payload")
+			}
+		}
+		curScript.Store(sc)
+		seenMu.Lock()
+		seen = nil
+		seenMu.Unlock()
+		cv, herr := doCall(cc, kind, method, md, reqs, nresp)
+		seenMu.Lock()
+		recs := append([]*bview(nil), seen...)
+		seenMu.Unlock()
+		id := run.NextID()
+		sample := map[string]interface{}{"table": txt, "kind": kindNames[kind], "method": method, "md": mdSample(md),
+			"requests": len(reqs), "script": map[string]interface{}{"hdr": mdSample(sc.hdr), "trl": mdSample(sc.trl), "msgs": len(sc.msgs), "code": sc.code, "msg": sc.msg},
+			"caller_saw": map[string]interface{}{"hdr": mdSample(cv.hdr), "trl": mdSample(cv.trl), "msgs": len(cv.msgs), "code": cv.code, "msg": cv.msg}}
+		if herr != "" {
+			run.Violation(id, herr, sample)
+		}
+		if len(recs) > 1 {
+			run.Violation(id, fmt.Sprintf("one call reached %d backend handlers", len(recs)), sample)
+			return res, false
+		}
+		res.chosenT, res.bvT = vh.None, vh.None
+		res.class = "call-" + kindNames[kind]
+		if len(recs) == 1 {
+			rec := recs[0]
+			select {
+			case <-rec.done:
+			case <-time.After(3 * time.Second):
+				run.Violation(id, "backend handler still running 3 s after the caller saw the end of the call", sample)
+				return res, false
+			}
+			res.chosen = rec.url
+			res.chosenT = vh.Some(vh.HxS(rec.url))
+			res.bvT = vh.Some(vh.App("mkbview", vh.HxS(rec.method), mdCoq(rec.md, transportKeysBackend), msgsCoq(rec.msgs)))
+			sample["backend"] = rec.url
+			sample["backend_saw"] = map[string]interface{}{"method": rec.method, "md": mdSample(rec.md), "msgs": len(rec.msgs)}
+		} else {
+			res.class = "call-no-backend"
+			if cv.code == uint32(codes.Unavailable) {
+				// nobody was reached and the proxy says Unavailable: the call went to the target of the
+				// matched route that cannot be reached (at most one per route, see genT); found by
+				// asking the real table which routes carry such a target and checking the model's choice
+				for _, u := range tableURLs(tbl) {
+					if unreachable[u] {
+						// the model decides whether u is a target of the route for this call
+						res.chosen = "?"
+					}
+				}
+			}
+		}
+		up, okp := parsedPath(method)
+		res.upT = optStr(up, okp)
+		res.mdT = mdCoq(md, nil)
+		res.ciTerm = vh.App("mkcallin", res.mdT, vh.HxS(method), res.upT, msgsCoq(reqs),
+			vh.App("mkscript", vh.N(sc.mode), mdCoq(sc.hdr, nil), msgsCoq(sc.msgs), mdCoq(sc.trl, nil), vh.N(int(sc.code)), vh.HxS(sc.msg)))
+		res.cv = cv
+		res.sample = sample
+		return res, true
+	}
+
 	const period = 5 * time.Second
-	ticks := 0 // real cleanup ticks after the one at creation
-	wantTicks := run.Scale(1, 6)
+	ticks := int(time.Since(t0) / period) // real cleanup ticks so far (on an empty pool)
+	startTicks := ticks
+	wantTicks := ticks + run.Scale(1, 6)
 	nCalls := run.Scale(420, 2400)
-	perPhase := nCalls / (wantTicks + 1)
+	perPhase := nCalls / (run.Scale(1, 6) + 1)
 	var steps, obs []string
 	var ssample []string
-	curTbl, curTxt := t, ttxt
-	steps = append(steps, vh.App("SSetTable", strsCoq(tableURLs(t))))
+	curTbl, curTxt := genT()
+	steps = append(steps, vh.App("HSetTable", tableCoq(curTbl)))
 	obs = append(obs, observe())
 
 	awaitTick := func() {
@@ -1218,7 +1513,7 @@ func session(run *vh.Run, r *rand.Rand, backends []*backend) {
 			time.Sleep(10 * time.Millisecond)
 		}
 		time.Sleep(30 * time.Millisecond)
-		steps = append(steps, "STick")
+		steps = append(steps, "HTick")
 		obs = append(obs, observe())
 		ssample = append(ssample, "tick")
 	}
@@ -1230,128 +1525,71 @@ func session(run *vh.Run, r *rand.Rand, backends []*backend) {
 			awaitTick()
 			continue
 		}
-		if calls > 0 && calls%perPhase == 0 && ticks < wantTicks && ticks < calls/perPhase {
+		if calls > 0 && calls%perPhase == 0 && ticks < wantTicks && ticks-startTicks < calls/perPhase {
 			awaitTick()
 			continue
 		}
 		if r.Intn(8) == 0 {
-			curTbl, curTxt = genTable(r, burls, 6, true)
-			route.SetTable(curTbl)
-			steps = append(steps, vh.App("SSetTable", strsCoq(tableURLs(curTbl))))
+			curTbl, curTxt = genT()
+			steps = append(steps, vh.App("HSetTable", tableCoq(curTbl)))
 			obs = append(obs, observe())
 			ssample = append(ssample, "table")
 			continue
 		}
 		calls++
-		kind := r.Intn(6)
-		method := methodPool[r.Intn(len(methodPool))]
-		if r.Intn(16) == 0 {
-			// still "/service/method" for grpc-go; net/url decodes, splits or rejects them
-			method = []string{"/pkg.Svc/G%65t", "/pkg.Svc/Get%zz", "/pkg.Svc/Get?x=/other.Api/", "/%6fther.Api/X", "/pkg.Svc/Get#frag"}[r.Intn(5)]
-		}
-		md := genMD(r, mdKeys, 4)
-		addDstHost(r, md)
-		sc := &script{hdr: genMD(r, mdKeys[:9], 3), trl: genMD(r, mdKeys[:9], 3), earlyHdr: r.Intn(2) == 0}
-		if r.Intn(3) > 0 {
-			sc.code = uint32(1 + r.Intn(16))
-			if r.Intn(8) == 0 {
-				sc.code = uint32(17 + r.Intn(80))
-			}
-			sc.msg = statusMsgs[r.Intn(len(statusMsgs))]
-		}
-		var reqs [][]byte
-		nreq, nresp := r.Intn(5), r.Intn(5)
-		allowBig := calls%7 == 0
-		switch kind {
-		case kUnary:
-			nreq, nresp = 1, 1
-			if sc.code != 0 {
-				nresp = 0
-			}
-		case kServerStream:
-			nreq = 1
-		case kClientStream:
-			nresp = 1
-			if sc.code != 0 {
-				nresp = 0
-			}
-		case kPingPong:
-			sc.mode = modePingPong
-		case kEarlyFail:
-			sc.mode = modeEarlyFail
-			nresp = 0
-			if sc.code == 0 {
-				sc.code = uint32(codes.FailedPrecondition)
-				sc.msg = "early"
-			}
-		}
-		reqs = genMsgs(r, nreq, allowBig)
-		sc.msgs = genMsgs(r, nresp, allowBig)
-		curScript.Store(sc)
-		seenMu.Lock()
-		seen = nil
-		seenMu.Unlock()
-		cc := callers[r.Intn(len(callers))]
-		cv, herr := doCall(cc, kind, method, md, reqs, nresp)
-		seenMu.Lock()
-		recs := append([]*bview(nil), seen...)
-		seenMu.Unlock()
-		id := run.NextID()
-		sample := map[string]interface{}{"table": curTxt, "kind": kindNames[kind], "method": method, "md": mdSample(md),
-			"requests": len(reqs), "script": map[string]interface{}{"hdr": mdSample(sc.hdr), "trl": mdSample(sc.trl), "msgs": len(sc.msgs), "code": sc.code, "msg": sc.msg},
-			"caller_saw": map[string]interface{}{"hdr": mdSample(cv.hdr), "trl": mdSample(cv.trl), "msgs": len(cv.msgs), "code": cv.code, "msg": cv.msg}}
-		if herr != "" {
-			run.Violation(id, herr, sample)
-		}
-		if len(recs) > 1 {
-			run.Violation(id, fmt.Sprintf("one call reached %d backend handlers", len(recs)), sample)
+		res, ok := doOne(callers[r.Intn(len(callers))], curTbl, curTxt, unreachablePlain, calls, "")
+		if !ok {
 			continue
 		}
-		chosen, bv := vh.None, vh.None
-		if len(recs) == 1 {
-			rec := recs[0]
-			select {
-			case <-rec.done:
-			case <-time.After(3 * time.Second):
-				run.Violation(id, "backend handler still running 3 s after the caller saw the end of the call", sample)
-				continue
-			}
-			chosen = vh.Some(vh.HxS(backends[rec.backend].url))
-			bv = vh.Some(vh.App("mkbview", vh.HxS(rec.method), mdCoq(rec.md, transportKeysBackend), msgsCoq(rec.msgs)))
-			sample["backend"] = rec.backend
-			sample["backend_saw"] = map[string]interface{}{"method": rec.method, "md": mdSample(rec.md), "msgs": len(rec.msgs)}
-			steps = append(steps, vh.App("SCall", vh.Some(vh.HxS(backends[rec.backend].url))))
+		// chosen "?": nobody reached + Unavailable; the check resolves it to the unreachable target
+		// of the route the model selects
+		hchosen := res.chosenT
+		if res.chosen == "?" {
+			hchosen = "HUnreachable"
+			res.class = "call-backend-unreachable"
+		} else if res.chosen == "" {
+			hchosen = "HNobody"
 		} else {
-			steps = append(steps, vh.App("SCall", vh.None))
+			hchosen = vh.App("HBackend", vh.HxS(res.chosen))
 		}
+		steps = append(steps, vh.App("HCall", res.mdT, res.upT, hchosen))
 		obs = append(obs, observe())
-		ssample = append(ssample, fmt.Sprintf("call->%s", chosen))
-		for _, m := range append(append([][]byte{}, reqs...), sc.msgs...) {
-			if !wellFormed(m) {
-				panic("generator produced a malformed protobuf payload")
-			}
-		}
-		up, ok := parsedPath(method)
-		class := "call-" + kindNames[kind]
-		if len(recs) == 0 {
-			class = "call-no-backend"
-		}
-		ci := vh.App("mkcallin", mdCoq(md, nil), vh.HxS(method), optStr(up, ok), msgsCoq(reqs),
-			vh.App("mkscript", vh.N(sc.mode), mdCoq(sc.hdr, nil), msgsCoq(sc.msgs), mdCoq(sc.trl, nil), vh.N(int(sc.code)), vh.HxS(sc.msg)))
-		run.Add(class, vh.App("CCall", tableCoq(curTbl), vh.Bool(noglob), ci, chosen, bv, cviewCoq(cv)), sample)
+		ssample = append(ssample, fmt.Sprintf("call->%s", res.chosen))
+		run.Add(res.class, vh.App("CCall", tableCoq(curTbl), vh.Bool(noglob), vh.Bool(false), downTerm, res.ciTerm, hchosen, res.bvT, cviewCoq(res.cv)), res.sample)
 	}
 	// one more real tick on an empty table: everything is dropped
-	if ticks < wantTicks+1 {
-		curTbl = route.Table{}
-		route.SetTable(curTbl)
-		steps = append(steps, vh.App("SSetTable", "[]"))
-		obs = append(obs, observe())
-		awaitTick()
-	}
+	curTbl = setTable("")
+	steps = append(steps, vh.App("HSetTable", "[]"))
+	obs = append(obs, observe())
+	awaitTick()
 	run.Notes["session_calls"] = calls
-	run.Notes["session_real_ticks"] = ticks
-	run.Notes["session_noroute_counter"] = atomic.LoadInt64(&noRoute)
-	run.Add("session", vh.App("CSession", vh.List(steps), vh.List(obs)), map[string]interface{}{"steps": len(steps), "ticks": ticks, "first": ssample[:min(len(ssample), 40)]})
+	run.Notes["session_real_ticks"] = ticks - startTicks
+	run.Add("session", vh.App("CHistory", vh.Bool(noglob), vh.Bool(false), downTerm, vh.List(steps), vh.List(obs)),
+		map[string]interface{}{"steps": len(steps), "ticks": ticks - startTicks, "first": ssample[:min(len(ssample), 40)]})
+
+	// the TLS listener: its tls.Config is what the director's pool gets, so grpcs targets are
+	// dialled with TLS there; plain and TLS backends behind it
+	for i := 0; i < run.Scale(40, 300); i++ {
+		var sb strings.Builder
+		fmt.Fprintf(&sb, "route add tlssvc /pkg.Svc %s opts \"proto=grpc tlsskipverify=true\"\n", tlsBackend.url)
+		fmt.Fprintf(&sb, "route add plain /other.Api %s opts \"proto=grpc\"\n", burls[r.Intn(len(burls))])
+		if r.Intn(3) == 0 {
+			fmt.Fprintf(&sb, "route add tlssvc2 betatest/ %s opts \"proto=grpc tlsskipverify=true\"\n", tlsBackend.url)
+		}
+		txt := sb.String()
+		tbl := setTable(txt)
+		res, ok := doOne(tlsCaller, tbl, txt, map[string]bool{}, i, "")
+		if !ok {
+			continue
+		}
+		hchosen := "HNobody"
+		if res.chosen != "" {
+			hchosen = vh.App("HBackend", vh.HxS(res.chosen))
+		}
+		cl := "tls-listener-" + res.class
+		run.Add(cl, vh.App("CCall", tableCoq(tbl), vh.Bool(noglob), vh.Bool(true), downTerm, res.ciTerm, hchosen, res.bvT, cviewCoq(res.cv)), res.sample)
+	}
+	setTable("")
 }
 
 // ---------------------------------------------------------------------------
